@@ -179,7 +179,9 @@ def d5(ctx):
             continue
         inc = increment_of(ws[0], fl)
         # accumulator: the local named `discarded`
-        acc = [i for i, l in enumerate(b.locals) if l["name"] == "discarded"]
+        # the accumulator is the local whose value is returned (whatever it is called)
+        rv = [r["value"] for r in res.log if r["kind"] == "ret0" and not r["chain"]]
+        acc = [rv[0][2]] if len(rv) == 1 and tag(rv[0]) == "phi" and isinstance(rv[0][2], int) else [i for i, l in enumerate(b.locals) if l["name"] == "discarded"]
         backs = b.back_edges()
         ok_acc = False
         top_bb = ws[0]["chain"][0][1] if ws[0]["chain"] else ws[0]["bb"]
